@@ -1703,12 +1703,14 @@ class InTablePhase(Phase):
         originalPhase = self.parser.phase
         self.parser.phase = self.parser.phases["inTableText"]
         self.parser.phase.originalPhase = originalPhase
+        self.parser.phase.characterTokens = []
         self.parser.phase.processSpaceCharacters(token)
 
     def processCharacters(self, token):
         originalPhase = self.parser.phase
         self.parser.phase = self.parser.phases["inTableText"]
         self.parser.phase.originalPhase = originalPhase
+        self.parser.phase.characterTokens = []
         self.parser.phase.processCharacters(token)
 
     def insertText(self, token):
